@@ -32,11 +32,12 @@ const char* const kFaultNames[] = { "preemption", "child_runs_first_at_create", 
 enum ProbeId { P_singleton_run, P_managed_run, P_two_threads_inside_instance, P_lock_waited,
                P_query_while_running, P_query_before_start, P_query_after_finish, P_child_ran_before_ctor_end,
                P_join_explicit, P_join_by_destructor, P_observer_thread, P_reset_between_rounds,
-               P_policy_random, P_policy_pct, P_policy_rr, P_policy_explicit };
+               P_policy_random, P_policy_pct, P_policy_rr, P_policy_explicit, P_function_over_before_ctor_end };
 const char* const kProbeNames[] = { "singleton_run", "managed_run", "two_threads_inside_instance", "lock_waited",
                "query_while_function_running", "query_before_start", "query_after_finish",
                "child_ran_before_constructor_finished", "join_explicit", "join_by_destructor", "observer_thread",
-               "reset_between_rounds", "policy_random", "policy_pct", "policy_rr", "policy_explicit" };
+               "reset_between_rounds", "policy_random", "policy_pct", "policy_rr", "policy_explicit",
+               "function_finished_before_constructor_returned" };
 
 // ------------------------------------------------------------ singleton
 
@@ -127,20 +128,23 @@ void query( ManagedShared& sh, celma::common::ManagedThread& mt, QueryLog& ql, i
    else ++ql.after_finish;
 }
 
-void managedBody( ManagedShared* sh)
+/// latch: the function runs until the creating thread releases it; without
+/// latch it returns at once (it may be over before the constructor of the
+/// ManagedThread object has finished)
+void managedBody( ManagedShared* sh, bool latch)
 {
    sh->started.store( 1);
-   while (sh->release.load() == 0)
+   while (latch && sh->release.load() == 0)
       sim::schedYield();
    sh->finished.store( 1);
 }
 
-void managedBodyArg( ManagedShared* sh, int spin_extra)
+void managedBodyArg( ManagedShared* sh, int spin_extra, bool latch)
 {
    sh->started.store( 1);
    for (int k = 0; k < spin_extra; ++k)
       sim::schedYield();
-   while (sh->release.load() == 0)
+   while (latch && sh->release.load() == 0)
       sim::schedYield();
    sh->finished.store( 1);
 }
@@ -221,6 +225,7 @@ public:
          plan[ "join"] = cfg.chance( 2, 3) ? "explicit" : "dtor";
          plan[ "with_arg"] = cfg.chance( 1, 2);
          plan[ "spin_extra"] = cfg.range( 0, 3);
+         plan[ "latch"] = !cfg.chance( 1, 3);
          plan[ "rounds"] = cfg.range( 1, 2);
          plan[ "sched"] = sim::genSchedule( sc, 600);
       }
@@ -378,6 +383,7 @@ private:
       const bool       explicit_join = plan.gets( "join") != "dtor";
       const bool       with_arg = plan.geti( "with_arg", 0) != 0;
       const int        spin_extra = static_cast< int>( std::max< long long>( 0, std::min< long long>( 8, plan.geti( "spin_extra", 0))));
+      const bool       latch = plan.geti( "latch", 1) != 0;
       const long long  rounds = std::max< long long>( 1, std::min< long long>( 3, plan.geti( "rounds", 1)));
       sim::schedBegin( sh.cfg);
       for (long long round = 0; round < rounds && res.ok(); ++round)
@@ -394,9 +400,10 @@ private:
          {
             std::unique_ptr< celma::common::ManagedThread>  mt;
             if (with_arg)
-               mt.reset( new celma::common::ManagedThread( managedBodyArg, &shd, spin_extra));
+               mt.reset( new celma::common::ManagedThread( managedBodyArg, &shd, spin_extra, latch));
             else
-               mt.reset( new celma::common::ManagedThread( [ &shd] { managedBody( &shd); }));
+               mt.reset( new celma::common::ManagedThread( [ &shd, latch] { managedBody( &shd, latch); }));
+            if (shd.finished.load() == 1) st.probe( P_function_over_before_ctor_end);
             // did the new thread already run while the constructor was still busy?
             if (shd.started.load() == 1) st.probe( P_child_ran_before_ctor_end);
             shd.published.store( mt.get());
